@@ -41,8 +41,10 @@ pub struct HistOutcome {
     pub notes: Vec<String>,
 }
 
-const SESSION_TIMEOUT: Duration = Duration::from_secs(10);
-const SNAPSHOT_GRACE: Duration = Duration::from_secs(3);
+// watchdogs: generous and load-independent (the waits end as soon as the awaited thing happens); a run that
+// does not finish is a liveness matter, not a C03 violation: its streams are skipped and a note is recorded
+const SESSION_TIMEOUT: Duration = Duration::from_secs(180);
+const SNAPSHOT_GRACE: Duration = Duration::from_secs(90);
 const MAX_EMIT_LINE: usize = 4000;
 const SHRINK_RERUNS: usize = 24;
 const SHRINK_HISTORIES: usize = 2;
@@ -1564,7 +1566,7 @@ pub fn run_histories(seed: u64, n_histories: usize, max_lines: usize) -> HistOut
             if !seen.insert(v.class) {
                 continue;
             }
-            if v.class == "harness_setup" {
+            if v.class == "harness_setup" || v.class == "session_timeout" {
                 out.notes.push(format!("history {index}: {}", v.what));
                 continue;
             }
